@@ -31,3 +31,38 @@ func WitnessF19() bool {
 	o1, o2 := Dispatch(c, Req{Method: "GET", Path: "/a"}), Dispatch(c, Req{Method: "GET", Path: "/a/"})
 	return o1.Kind == "err" && o1.Code == 404 && o2.Kind == "sel"
 }
+
+// WitnessF03: CurlyRouter ignores the regex of a root-path variable: /123 is a 404 although the second root claims it.
+func WitnessF03() bool {
+	a := Service{ID: 0, Root: "/{name:[a-z]+}", Routes: []RouteDecl{simpleRoute(0, "GET", "")}}
+	b := Service{ID: 1, Root: "/{id:[0-9]+}", Routes: []RouteDecl{simpleRoute(1, "GET", "")}}
+	c, err := Build(Config{Router: "curly", Services: []Service{a, b}})
+	if err != nil {
+		return false
+	}
+	o := Dispatch(c, Req{Method: "GET", Path: "/123"})
+	return o.Kind == "err" && o.Code == 404
+}
+
+// WitnessF04: a chunked POST with a consumed Content-Type and an unsatisfiable Accept is answered 415, not 406.
+func WitnessF04() bool {
+	r := simpleRoute(0, "POST", "")
+	r.Consumes, r.Produces = []string{"application/json"}, []string{"application/json"}
+	c, err := Build(Config{Router: "curly", Services: []Service{{ID: 0, Root: "/u", Routes: []RouteDecl{r}}}})
+	if err != nil {
+		return false
+	}
+	o := Dispatch(c, Req{Method: "POST", Path: "/u", CT: "application/json", Accept: "text/plain", CL: -1})
+	return o.Kind == "err" && o.Code == 415
+}
+
+// WitnessF16: RouterJSR311 answers 404 when a variable segment contains a newline.
+func WitnessF16() bool {
+	s := Service{ID: 0, Root: "/w", Routes: []RouteDecl{simpleRoute(0, "GET", "/{x}/b")}}
+	c, err := Build(Config{Router: "jsr", Services: []Service{s}})
+	if err != nil {
+		return false
+	}
+	o := Dispatch(c, Req{Method: "GET", Path: "/w/a\nb/b"})
+	return o.Kind == "err" && o.Code == 404
+}
